@@ -32,6 +32,7 @@ class FnSpec:
     def __init__(self):
         self.module = self.header = self.name = None
         self.as_name = None
+        self.label = None
         self.props = []
         self.fsubst = []
         self.ret = 'r'
@@ -46,7 +47,7 @@ class FnSpec:
         self.vis = None
 
     def display(self):
-        return self.as_name or self.name
+        return self.label or self.as_name or self.name
 
 
 def _parse_subst(arg, where):
@@ -126,6 +127,8 @@ class Unit:
                         sink = None
                     elif word == 'as':
                         cur.as_name = arg
+                    elif word == 'label':
+                        cur.label = arg
                     elif word == 'props':
                         cur.props = arg.split()
                     elif word == 'fsubst':
@@ -287,6 +290,9 @@ def assemble(unit, index, expanded_name='expanded.rs', probe=None):
             t = its[0].text
             t = rw.strip_comments_and_attrs(t, fired)
             t = rw.apply_substs(t, unit.substs, fired)
+            if el['kind'] == 'struct':
+                # field visibility has no semantics for the properties (R8); spec functions need to read fields
+                t = re.sub(r'(?m)^(\s+)(?!pub\b)([A-Za-z_]\w*\s*:)', r'\1pub \2', t)
             for k, ln in enumerate(t.split('\n')):
                 if ln.strip():
                     out.lines.append(Line(ln, 'src', None, expanded_name, its[0].line + k))
@@ -402,6 +408,16 @@ def assemble(unit, index, expanded_name='expanded.rs', probe=None):
                     # start of the line's first non-blank
                     return h[0]
                 return h[1]
+            m2 = re.match(r'(before_text|after_text)\s+/(.*)/\s*(#(\d+))?$', anchor)
+            if m2:
+                hits = list(re.finditer(m2.group(2), body))
+                want = int(m2.group(4)) if m2.group(4) else None
+                if want is None and len(hits) != 1:
+                    raise ExtractError('%s: anchor %s matches %d places (lost anchor)' % (dn, anchor, len(hits)))
+                if want is not None and want >= len(hits):
+                    raise ExtractError('%s: anchor %s occurrence missing (lost anchor)' % (dn, anchor))
+                h = hits[want or 0]
+                return h.start() if m2.group(1) == 'before_text' else h.end()
             m2 = re.match(r'loop_start\s+(\d+)$', anchor)
             if m2:
                 k = int(m2.group(1))
